@@ -159,13 +159,31 @@ def spaces_set(sp, k):
 
 # ---- running the implementation ------------------------------------------------------------------
 
-def mk_array(D, dtype, flat):
+LAYOUTS = ["C", "F", "S", "M", "R"]
+
+
+def mk_array(D, dtype, flat, layout="C"):
+    """the data as ndarray of the domain's shape; `layout` only chooses the MEMORY layout (array
+    semantics must not depend on it): C / Fortran / strided view (every other element of a larger
+    buffer) / axes moved in memory (neither C nor F for >= 3 axes) / real part of a complex buffer"""
     shape = D.dt.shape
     if dtype == "complex128":
         a = np.array([complex(x[0], x[1]) for x in flat], dtype=np.complex128)
     else:
         a = np.array(flat, dtype=dtype)
-    return a.reshape(shape)
+    a = a.reshape(shape)
+    if layout == "C" or a.ndim == 0:
+        return a
+    if layout == "F":
+        return np.asfortranarray(a)
+    if layout == "M":
+        return np.moveaxis(np.ascontiguousarray(np.moveaxis(a, 0, -1)), -1, 0)
+    if layout == "R" and dtype == "float64":
+        big = a + 1j * (a + 7.)
+        return big.real
+    big = np.zeros(shape[:-1] + (2 * shape[-1],), dtype=a.dtype) - 5
+    big[..., ::2] = a
+    return big[..., ::2]
 
 
 def keep(D, sp, arr):
@@ -179,7 +197,7 @@ def run_impl(case):
     """('val', ndarray one axis per sub-domain) | ('err', name)"""
     import nifty.cl as ift
     D = Dom(case["dom"])
-    f = ift.Field(D.dt, mk_array(D, case["dtype"], case["data"]))
+    f = ift.Field(D.dt, mk_array(D, case["dtype"], case["data"], case.get("layout", "C")))
     op, sp = case["op"], spaces_py(case.get("spaces"))
     try:
         if op in ("sum", "prod", "integrate", "mean", "var", "std"):
@@ -193,7 +211,7 @@ def run_impl(case):
             return D, ("val", r.asnumpy().reshape(D.sizes))
         if op in ("vdot", "s_vdot", "add", "sub", "mul"):
             D2 = Dom(case["dom2"]) if case.get("dom2") else D
-            g = ift.Field(D2.dt, mk_array(D2, case["dtype2"], case["data2"]))
+            g = ift.Field(D2.dt, mk_array(D2, case["dtype2"], case["data2"], case.get("layout2", "C")))
             if op == "vdot":
                 r = f.vdot(g, sp)
                 return D, ("val", keep(D, sp, r.asnumpy()))
@@ -409,7 +427,8 @@ def gen_cases(ctx):
                 if ctx.quick and sp != [] and rng.random() < 0.45:
                     continue
                 dt = dtypes[int(rng.integers(0, 3))]
-                c = {"dom": specs, "dtype": dt, "data": gen_data(rng, n, dt), "op": op, "spaces": sp}
+                c = {"dom": specs, "dtype": dt, "data": gen_data(rng, n, dt), "op": op, "spaces": sp,
+                     "layout": LAYOUTS[int(rng.integers(0, 5))], "layout2": LAYOUTS[int(rng.integers(0, 5))]}
                 if op == "weight":
                     c["power"] = int(rng.choice([1, 1, -1, 2, 0]))
                 if op == "vdot":
@@ -418,7 +437,8 @@ def gen_cases(ctx):
                 cases.append(c)
         for op in ["s_sum", "s_prod", "s_integrate", "s_mean", "s_var", "s_vdot", "add", "sub", "mul", "adds", "muls", "rsubs"]:
             dt = dtypes[int(rng.integers(0, 3))]
-            c = {"dom": specs, "dtype": dt, "data": gen_data(rng, n, dt), "op": op, "spaces": None}
+            c = {"dom": specs, "dtype": dt, "data": gen_data(rng, n, dt), "op": op, "spaces": None,
+                 "layout": LAYOUTS[int(rng.integers(0, 5))], "layout2": LAYOUTS[int(rng.integers(0, 5))]}
             if op in ("s_vdot", "add", "sub", "mul"):
                 dt2 = dtypes[int(rng.integers(0, 3))]
                 c.update({"dtype2": dt2, "data2": gen_data(rng, n, dt2)})
@@ -431,6 +451,16 @@ def gen_cases(ctx):
             if op in ("adds", "muls", "rsubs"):
                 c["scalar"] = [int(rng.integers(-3, 4)), int(rng.integers(-3, 4))] if rng.random() < 0.3 else int(rng.integers(-3, 4))
             cases.append(c)
+    # dot products and sums of operands in every pair of memory layouts, on domains with >= 2 array axes
+    for specs in ([["RG", [2, 3], [0.5, 0.25], False]], [["U", [3]], ["DOF", [0.5, 2.0, 1.0, 0.25]]],
+                  [["RG", [2], [0.5], False], ["U", [3]], ["LM", 1]]):
+        n = int(np.prod(Dom(specs).sizes))
+        for l1 in LAYOUTS:
+            for l2 in LAYOUTS:
+                for op in (["s_vdot", "vdot"] if not ctx.quick or (l1 != "C" and l2 != "C") else ["s_vdot"]):
+                    dt, dt2 = ("float64", "float64") if "R" in (l1, l2) else (dtypes[int(rng.integers(0, 3))], dtypes[int(rng.integers(0, 3))])
+                    cases.append({"dom": specs, "dtype": dt, "data": gen_data(rng, n, dt), "op": op, "spaces": None,
+                                  "dtype2": dt2, "data2": gen_data(rng, n, dt2), "layout": l1, "layout2": l2})
     return cases
 
 
@@ -670,7 +700,7 @@ class C06(C.Check):
             dist[key] = dist.get(key, 0) + 1
         res.coverage.update({
             "evaluations": len(checks), "distinct_nontrivial": distinct,
-            "rule": "domain tuples of 1-3 sub-domains drawn from %d space kinds (RG 1-D/2-D, harmonic RG, HP, LM, DOF, GL, power spaces, unstructured), every subset of sub-domains in None/int/tuple form plus an out-of-range and a repeated index, ops sum/prod/integrate/mean/var/weight(p)/vdot/s_*/binary ops with field (same or different domain) and scalar operands, int/float/complex data in -3..3; MultiField s_vdot and flexible_addsub on overlapping key sets; non-trivial = more than one sub-domain and a value returned; distinct by (domain, op, spaces, dtype)" % len(SPACE_POOL),
+            "rule": "operands in 5 memory layouts (C, Fortran, strided view, moved axes, real part of a complex buffer; all pairs for dot products); domain tuples of 1-3 sub-domains drawn from %d space kinds (RG 1-D/2-D, harmonic RG, HP, LM, DOF, GL, power spaces, unstructured), every subset of sub-domains in None/int/tuple form plus an out-of-range and a repeated index, ops sum/prod/integrate/mean/var/weight(p)/vdot/s_*/binary ops with field (same or different domain) and scalar operands, int/float/complex data in -3..3; MultiField s_vdot and flexible_addsub on overlapping key sets; non-trivial = more than one sub-domain and a value returned; distinct by (domain, op, spaces, dtype)" % len(SPACE_POOL),
             "samples": [{"dom": c["dom"], "op": c["op"], "spaces": c.get("spaces"), "dtype": c["dtype"], "impl": (out[1].tolist() if out[0] == "val" else out[1])}
                         for c, D, out in self.obs[3:6]],
             "input_distribution": dist,
